@@ -29,14 +29,14 @@ class CallTimeout(BaseException):
 
 
 class TraceTooLarge(Exception):
-    """A result grew beyond what is worth recording (terms x elements); the trace ends here, with that event in it."""
+    """A result grew beyond what is worth judging (terms x elements); the trace ends before that event."""
 
     def __init__(self, recorder):
         super().__init__("trace %s stopped: result too large" % recorder.id)
         self.recorder = recorder
 
 
-WEIGHT_LIMIT = 6000       # coefficient entries in the results of one call (zero terms kept under retain_coefficients pile up)
+WEIGHT_LIMIT = 1500       # coefficient entries in the results of one call (zero terms kept under retain_coefficients pile up)
 
 
 WATCH = {"armed": False}
@@ -157,11 +157,12 @@ class Recorder:
             if not k.startswith("_"):
                 ev[k] = v
         ev.update(extra)
-        self.events.append(ev)
         weight = sum(len(r.get("rows", ())) * max(1, len(r["coefs"][0]) if r.get("coefs") else 1) for r in res if r.get("kind") == "poly")
         if weight > WEIGHT_LIMIT:
-            self.meta["truncated"] = "result of event %d has %d coefficient entries" % (len(self.events), weight)
+            # the trace ends BEFORE this event: multiplying out polynomials of thousands of terms in TLA+ takes TLC hours
+            self.meta["truncated"] = "result of event %d would have %d coefficient entries" % (len(self.events) + 1, weight)
             raise TraceTooLarge(self)
+        self.events.append(ev)
         return new_regs
 
     def do(self, act: str, args=(), prop=None, targets=(), keep=True, **params):
